@@ -21,7 +21,8 @@
 //!
 //! impl line (input of the extracted validator):
 //!   RET <T|E|S<k>> <elapsed_ns> ; <ev>*      ev = a<i> r<i> q<i>:<st>@<t> s<i>:<st> w:<st>@<t> f<m>:<p> v<m> d<i>
-//!   CRASH <code> | HANG
+//!                                            W:<st> = first status the subscriber logged (maybe after the return)
+//!   CRASH <file:line of the panic> | HANG
 use elvis::applications::{
     ArpRouter, BasicServer, Capture, DhcpServer, Forward, OnReceive, PingPong, SendMessage, SocketClient, SocketServer,
     TcpListenerServer, TcpStreamClient, ThroughputTester,
@@ -821,6 +822,9 @@ impl Family for C13 {
                 }
             }
             let _ = arrived;
+            if let Some(w) = &first_seen_any {
+                line.push_str(&format!(" W:{}", w));
+            }
             if dropped > 0 {
                 stat("frames after the release (not part of the impl line)");
             }
